@@ -23,22 +23,31 @@ def tamperByte (b : Byte) : Byte :=
   else if b == 120 || b == 88 then 121 else 120
 
 /-- offsets (into the message) of the alphanumeric octets a verifier must protect: those of
-    the selected fields and of the body -/
+    the selected field instances (counted from the bottom, as §5.4.2 selects them) and of the body -/
 def protectedOffsets (v : DkimVerifier.View) (msg : Bytes) : List Nat := Id.run do
   let selected := DkimVerifier.select v.hnames (v.fields.filter (fun f => !DkimVerifier.nameIs (str "DKIM-Signature") f))
+  -- offsets of all fields, then from the bottom up: an instance is protected if it is still to be accounted for
   let mut off := 0
-  let mut acc : Array Nat := #[]
+  let mut placed : Array (Nat × Bytes) := #[]
   for f in v.fields do
-    if selected.contains f then
+    placed := placed.push (off, f)
+    off := off + f.length + 2
+  let bodyOff := off + 2
+  let mut remaining := selected
+  let mut acc : Array Nat := #[]
+  for (o, f) in placed.toList.reverse do
+    if remaining.contains f then
+      remaining := remaining.erase f
+      -- the value only: renaming a field makes a verifier look for another instance of the name, which is a
+      -- property of DKIM with repeated field names, not of the signer
+      let nameLen := (f.takeWhile (· != 58)).length
       let mut i := 0
       for b in f do
-        if isAlnum b then acc := acc.push (off + i)
+        if i > nameLen && isAlnum b then acc := acc.push (o + i)
         i := i + 1
-    off := off + f.length + 2
-  off := off + 2
   let mut i := 0
-  for b in msg.drop off do
-    if isAlnum b then acc := acc.push (off + i)
+  for b in msg.drop bodyOff do
+    if isAlnum b then acc := acc.push (bodyOff + i)
     i := i + 1
   return acc.toList
 
@@ -126,6 +135,8 @@ def dkimOp : List String → String
           | some mhv, some (all, body) =>
             let m : Msg := ⟨mhv, (all.drop mhv.length).map (fun (n, v) => ⟨n, [], v⟩), body⟩
             if m.format != before then "MISMATCH dkim-format model=-"
+            -- the shape the header theorems assume of emitted fields
+            else if !((mhv ++ m.partHdr).all mailFieldOk) then "MISMATCH dkim-field-shape-assumed-by-the-theorems model=-"
             else if bodyInput opts cfg m != hookBody then mismatch "dkim-body-input" (bodyInput opts cfg m)
             else if headerInput opts cfg ts m != hookHdr then mismatch "dkim-header-input" (headerInput opts cfg ts m)
             else
